@@ -174,6 +174,34 @@ pub fn record(pool_path: &str, w: &mut dyn Write, seed: u64, scale: usize) {
             emit(format!("concave_hull#{i}"), dg(guard(|| a.concave_hull(2.0)), |d, p| d.poly(p)), json!({}));
             emit(format!("simplify#{i}"), dg(guard(|| a.simplify(1.0)), |d, m| d.mp(m)), json!({}));
         }
+        // ---- objects that are reused: the answer of prepared.relate(x) must not depend on what the prepared geometry was asked
+        // before.  The second repetition asks the same questions in the opposite order (same keys), so any state that leaks
+        // from one call into the next makes a key map to two digests.
+        {
+            use geo::{PreparedGeometry, Relate};
+            let npre = 6 * scale;
+            for i in 0..npre {
+                let base = polys[rng.gen_range(0..polys.len())].clone();
+                let partners: Vec<MultiPolygon<f64>> = (0..5).map(|_| polys[rng.gen_range(0..polys.len())].clone()).collect();
+                let lparts: Vec<LineString<f64>> = (0..3).map(|_| lines[rng.gen_range(0..lines.len())].clone()).collect();
+                let prep = PreparedGeometry::from(geo::Geometry::MultiPolygon(base.clone()));
+                let mut order: Vec<usize> = (0..8).collect();
+                if rep == 1 {
+                    order.reverse();
+                }
+                for j in order {
+                    let im = guard(|| {
+                        if j < 5 {
+                            if j % 2 == 0 { prep.relate(&geo::Geometry::MultiPolygon(partners[j].clone())) } else { geo::Geometry::MultiPolygon(partners[j].clone()).relate(&prep) }
+                        } else {
+                            prep.relate(&geo::Geometry::LineString(lparts[j - 5].clone()))
+                        }
+                    });
+                    let digest = match im { Ok(m) => format!("{m:?}"), Err(e) => format!("panic:{}", e.chars().take(40).collect::<String>()) };
+                    emit(format!("prepared_relate#{i}.{j}"), digest, json!({}));
+                }
+            }
+        }
         // ---- many separate members: stitching k x k separate squares, triangulated
         for (i, kk) in [2usize, 3, 4, 5].iter().enumerate() {
             let g = grid(*kk, 0.0, 0.0);
